@@ -80,17 +80,23 @@ class Check(PropertyCheck):
                   "Host header and authority): parseDec_decDigits; parseAuthority_hostport and netloc_hostport (what hostport writes is read "
                   "back as the same host and port by parse_authority and by urllib — DNS names, IPv4 and bracketed IPv6 alike); "
                   "host_port_edit_keeps_host_header_and_authority_pointing_to_destination (any request, every host/port/accepted-url edit); "
+                  "normRestPy_idem / normRestPy_stored (urlunparse∘urlparse on what follows the netloc — cut at # and ?, ;params after the last /, "
+                  "re-assembly — is idempotent and fixes every path url.parse stores) and restStable_of_setUrl; "
                   "url_parse_reads_getter_url (url.parse(request.url) returns the request's own scheme, host, port and path for http/https, "
-                  "lower-case ASCII hosts, ports 1..65535 with default-port elision, ASCII paths) and with it url_get_set_idempotent_ascii "
-                  "(re-assigning request.url changes nothing); url_get_set_idempotent_partial (general library, explicit hypothesis) + "
+                  "lower-case ASCII hosts, ports 1..65535 with default-port elision, ASCII paths) and with it url_get_set_idempotent_ascii and "
+                  "url_get_set_idempotent_ascii_rest (re-assigning request.url changes nothing; the latter without the restStable hypothesis), and "
+                  "url_get_set_idempotent_derived (port range, leading '/', is_valid_host, the IDNA round trip and path stability all derived "
+                  "from the setter's own success); url_get_set_idempotent_partial (general library, explicit hypothesis) + "
                   "url_get_set_idempotent_counterexample (IDN, F-C33b). Model tied to the real Request objects, url.parse, parse_authority "
                   "and urllib.parse.urlsplit differentially.")
     level_note = ("PARTIAL for IDN hosts (F-C33b: Request.url returns the U-label form which url.parse rejects). For ASCII hosts the former "
                   "hypothesis 'url.parse reads the getter's URL back' is now proved (url_parse_reads_getter_url); what remains assumed there are "
-                  "four named library facts, fields of GetterUrlOk: bracketedOk (_check_bracketed_host/ipaddress accepts the IPv6 literal), "
-                  "idnaAscii (the IDNA round trip leaves an ASCII host alone), hostValid (is_valid_host accepts it), restStable "
-                  "(urlunparse of urlparse's path/params/query/fragment gives back the request's path text — urlsplit's cutting at # ? ; after "
-                  "the netloc is not transcribed). Hosts must be lower case (urllib lower-cases them: an upper-case host reads back "
+                  "(url_get_set_idempotent_derived) only the IDNA law for ASCII names (IdnaAsciiLaw: ASCII in, ASCII out => unchanged) and, for "
+                  "IPv6 literals, bracketedOk, besides the shape of the request (http/https, lower-case ASCII host, ASCII path). In the "
+                  "intermediate url_get_set_idempotent_ascii_rest: three named library facts, fields of GetterUrlOk2: bracketedOk (_check_bracketed_host/ipaddress accepts the IPv6 literal), "
+                  "idnaAscii (the IDNA round trip leaves an ASCII host alone), hostValid (is_valid_host accepts it). The fourth, restStable, is "
+                  "now a theorem: urlsplit's cutting at # and ?, urlparse's ;params and urlunparse's re-assembly are transcribed (normRestPy, "
+                  "tied to urllib by the `normrest` driver op) and proved idempotent. Hosts must be lower case (urllib lower-cases them: an upper-case host reads back "
                   "equivalent, not identical). Port 0 (silently replaced by the default port) and URLs with userinfo (dropped) are not "
                   "counted as valid URLs by the oracle; non-ASCII paths are rejected by url.parse by design. F-C33a (IPv6 brackets) is fixed "
                   "in /repo (bdda7e671).")
@@ -104,7 +110,8 @@ class Check(PropertyCheck):
             "distinct = distinct case; all non-trivial.")
     budget = {"quick": 5000, "thorough": 150000}
     time_budget = {"quick": 30, "thorough": 420}
-    fingerprints = ["urllib.parse:urlsplit", "urllib.parse:_splitnetloc", "mitmproxy.net.http.url:parse", "mitmproxy.net.http.url:unparse", "mitmproxy.net.http.url:hostport",
+    fingerprints = ["urllib.parse:urlsplit", "urllib.parse:_splitnetloc", "urllib.parse:urlparse", "urllib.parse:_splitparams",
+                    "urllib.parse:urlunparse", "urllib.parse:urlunsplit", "mitmproxy.net.http.url:parse", "mitmproxy.net.http.url:unparse", "mitmproxy.net.http.url:hostport",
                     "mitmproxy.net.http.url:default_port", "mitmproxy.net.http.url:parse_authority", "mitmproxy.net.check:is_valid_host",
                     "mitmproxy.net.check:is_valid_port", "mitmproxy.http:Request.url", "mitmproxy.http:Request.host",
                     "mitmproxy.http:Request.port", "mitmproxy.http:Request.authority", "mitmproxy.http:Request.host_header",
@@ -220,7 +227,9 @@ class Check(PropertyCheck):
         if k == "split":
             try:
                 p = urllib.parse.urlsplit(case["u"])
-                return {"res": [p.scheme, p.netloc, p.path, p.query, p.fragment]}
+                q = urllib.parse.urlparse(case["u"])
+                return {"res": [p.scheme, p.netloc, p.path, p.query, p.fragment],
+                        "norm": urllib.parse.urlunparse(("", "", q.path, q.params, q.query, q.fragment))}
             except ValueError:
                 return {"res": "err"}
         if k == "url":
@@ -448,7 +457,19 @@ class Check(PropertyCheck):
                     urllib.parse._check_bracketed_host(m.group(1).partition("[")[2].partition("]")[0])
                 except ValueError:
                     vb = "0"
-            return ["split %s %s" % (cps(case["u"]), vb)]
+            lines = ["split %s %s" % (cps(case["u"]), vb)]
+            # the re-assembly of what follows the netloc (urlunparse of urlparse's path/params/query/fragment), transcribed as normRestPy
+            try:
+                p = urllib.parse.urlparse(case["u"])
+                rest = u
+                sch = p.scheme
+                # what follows the netloc in the cleaned URL (the same cut the `split` reply is checked against)
+                if re.match(r"^[A-Za-z][A-Za-z0-9+.-]*:", u) and sch: rest = u.split(":", 1)[1]
+                if rest.startswith("//"): rest = rest[2 + len(p.netloc):]
+                lines.append("normrest %s %s" % (cps(sch), cps(rest)))
+            except ValueError:
+                pass
+            return lines
         if k == "url":
             r = self._mk(case)
             edits = [["url", case["u"]]]
@@ -475,12 +496,13 @@ class Check(PropertyCheck):
     def model_obs(self, case, replies):
         if case["k"] == "split":
             f = replies[0].split(" ")
-            if f[0] != "ok": return [replies[0]]
+            extra = [uncps(replies[1])] if len(replies) > 1 else []
+            if f[0] != "ok": return [replies[0]] + extra
             # what follows the netloc is cut at '#' and '?' by urlsplit itself (two str.split calls, not transcribed)
             rest = uncps(f[3]); frag = query = ""
             if "#" in rest: rest, frag = rest.split("#", 1)
             if "?" in rest: rest, query = rest.split("?", 1)
-            return ["ok", uncps(f[1]), uncps(f[2]), rest, query, frag]
+            return ["ok", uncps(f[1]), uncps(f[2]), rest, query, frag] + extra
         return replies
 
     @staticmethod
@@ -491,7 +513,7 @@ class Check(PropertyCheck):
     def impl_view(self, case, obs):
         k = case["k"]
         if k == "split":
-            return ["err"] if obs["res"] == "err" else ["ok"] + obs["res"]
+            return ["err"] if obs["res"] == "err" else ["ok"] + obs["res"] + [obs["norm"]]
         if k == "pa":
             if obs["res"] == "err": return ["err"]
             h, p = obs["res"]
